@@ -79,9 +79,53 @@ func c44Key(ents []c44Ent, kinds []c44Kind) string {
 func c44Weight(ents []c44Ent) int {
 	w := 0
 	for _, e := range ents {
-		w += 1 + len(e.sub)
+		w += 1 + c44Weight(e.sub)
 	}
 	return w
+}
+
+// c44EnumerateDeep lists every entry list over `names` whose entries are leaf
+// kinds 0..nk-1 or directories nested up to maxDepth levels (maxDepth 1 =
+// leaves only), with total weight (every entry at every level counts 1) <= maxW.
+func c44EnumerateDeep(nk int, names []string, maxW, maxDepth int) [][]c44Ent {
+	type wl struct {
+		ents []c44Ent
+		w    int
+	}
+	var gen func(maxW, depth int) []wl
+	gen = func(maxW, depth int) []wl {
+		var inner []wl
+		if depth > 1 && maxW >= 1 {
+			inner = gen(maxW-1, depth-1)
+		}
+		var out []wl
+		var rec func(i int, cur []c44Ent, w int)
+		rec = func(i int, cur []c44Ent, w int) {
+			if i == len(names) {
+				out = append(out, wl{append([]c44Ent{}, cur...), w})
+				return
+			}
+			rec(i+1, cur, w)
+			if w+1 > maxW {
+				return
+			}
+			for k := 0; k < nk; k++ {
+				rec(i+1, append(cur, c44Ent{name: names[i], leaf: k}), w+1)
+			}
+			for _, in := range inner {
+				if w+1+in.w <= maxW {
+					rec(i+1, append(cur, c44Ent{name: names[i], leaf: -1, sub: in.ents}), w+1+in.w)
+				}
+			}
+		}
+		rec(0, nil, 0)
+		return out
+	}
+	var res [][]c44Ent
+	for _, x := range gen(maxW, maxDepth) {
+		res = append(res, x.ents)
+	}
+	return res
 }
 
 // c44Enumerate lists every tree with weight <= maxW, <= maxRoot root entries.
@@ -139,18 +183,26 @@ func c44Enumerate(kinds []c44Kind, rootNames, subNames []string, maxW, maxRoot i
 func c44Flatten(t *c44Tree, kinds []c44Kind) {
 	t.flat = map[string]string{}
 	t.tags = map[string]string{}
-	for _, e := range t.ents {
-		if e.leaf >= 0 {
-			t.flat[e.name] = kinds[e.leaf].mode + " " + kinds[e.leaf].id
-			t.tags[e.name] = kinds[e.leaf].tag
-			continue
-		}
-		for _, s := range e.sub {
-			p := e.name + "/" + s.name
-			t.flat[p] = kinds[s.leaf].mode + " " + kinds[s.leaf].id
-			t.tags[p] = kinds[s.leaf].tag
+	var rec func(prefix string, ents []c44Ent)
+	rec = func(prefix string, ents []c44Ent) {
+		for _, e := range ents {
+			if e.leaf >= 0 {
+				// git reads the deprecated mode 100664 as 100644 (canon_mode)
+				t.flat[prefix+e.name] = c44CanonMode(kinds[e.leaf].mode) + " " + kinds[e.leaf].id
+				t.tags[prefix+e.name] = kinds[e.leaf].tag
+				continue
+			}
+			rec(prefix+e.name+"/", e.sub)
 		}
 	}
+	rec("", t.ents)
+}
+
+func c44CanonMode(m string) string {
+	if m == "100664" {
+		return "100644"
+	}
+	return m
 }
 
 const c44Zero = "000000 0000000000000000000000000000000000000000"
@@ -177,7 +229,7 @@ func c44ModelDiff(a, b *c44Tree) []string {
 }
 
 func c44EntryStr(e object.ChangeEntry) string {
-	return fmt.Sprintf("%06o %s", uint32(e.TreeEntry.Mode), e.TreeEntry.Hash.String())
+	return c44CanonMode(fmt.Sprintf("%06o", uint32(e.TreeEntry.Mode))) + " " + e.TreeEntry.Hash.String()
 }
 
 // c44Lines renders go-git changes in the model's format; when expand is true a
@@ -251,12 +303,25 @@ func c44Apply(a map[string]string, lines []string, want map[string]string) strin
 	return ""
 }
 
+// Option sets: the two DiffTreeWithOptions runs walk the trees again (fresh
+// Tree values / the same Tree values); the others go through the second
+// exported entry point, DetectRenames, on the changes of the plain diff, with
+// every rarely-set field of the options struct on both sides of its default:
+// RenameLimit 0 / 1 / 2 (the matrix truncation of the n:m exact branch and the
+// size gate of the content pass), RenameScore 0 / 60 / 100, nil options.
 var c44RenameOpts = []struct {
-	name string
-	opts *object.DiffTreeOptions
+	name   string
+	opts   *object.DiffTreeOptions
+	detect bool
 }{
-	{"default", object.DefaultDiffTreeOptions},
-	{"exact", &object.DiffTreeOptions{DetectRenames: true, RenameScore: 60, OnlyExactRenames: true}},
+	{"default", object.DefaultDiffTreeOptions, false},
+	{"exact", &object.DiffTreeOptions{DetectRenames: true, RenameScore: 60, OnlyExactRenames: true}, false},
+	{"DetectRenames(nil)", nil, true},
+	{"DetectRenames(limit=1)", &object.DiffTreeOptions{DetectRenames: true, RenameScore: 60, RenameLimit: 1}, true},
+	{"DetectRenames(limit=2,exact)", &object.DiffTreeOptions{DetectRenames: true, RenameScore: 60, RenameLimit: 2, OnlyExactRenames: true}, true},
+	{"DetectRenames(limit=3)", &object.DiffTreeOptions{DetectRenames: true, RenameScore: 60, RenameLimit: 3}, true},
+	{"DetectRenames(score=0)", &object.DiffTreeOptions{DetectRenames: true, RenameScore: 0}, true},
+	{"DetectRenames(score=100)", &object.DiffTreeOptions{DetectRenames: true, RenameScore: 100}, true},
 }
 
 // c44Verdict runs the real code on one pair and returns "" or the failure kind
@@ -295,13 +360,26 @@ func c44Verdict(st storer.EncodedObjectStorer, a, b *c44Tree) (kind, what, obs s
 			kind, what = "apply", "applying the reported changes to the first tree does not give the second: "+m
 			return
 		}
-		for _, ro := range c44RenameOpts {
-			// fresh trees: rename detection must not depend on memoised state
-			ta2, _ := object.GetTree(st, plumbing.NewHash(a.id))
-			tb2, _ := object.GetTree(st, plumbing.NewHash(b.id))
-			rch, err := object.DiffTreeWithOptions(context.Background(), ta2, tb2, ro.opts)
+		for ri, ro := range c44RenameOpts {
+			var rch object.Changes
+			var err error
+			switch {
+			case ro.detect:
+				// the other entry point: DetectRenames on the changes of the
+				// plain diff (must not depend on what an earlier call did
+				// with the same change values)
+				rch, err = object.DetectRenames(chs, ro.opts)
+			case ri%2 == 0:
+				// fresh trees: rename detection must not depend on memoised state
+				ta2, _ := object.GetTree(st, plumbing.NewHash(a.id))
+				tb2, _ := object.GetTree(st, plumbing.NewHash(b.id))
+				rch, err = object.DiffTreeWithOptions(context.Background(), ta2, tb2, ro.opts)
+			default:
+				// the SAME Tree values a second time (state left by the first diff)
+				rch, err = object.DiffTreeWithOptions(context.Background(), ta, tb, ro.opts)
+			}
 			if err != nil {
-				errS = "DiffTreeWithOptions(" + ro.name + "): " + err.Error()
+				errS = "rename detection (" + ro.name + "): " + err.Error()
 				return
 			}
 			exp, nren, err := c44Lines(rch, true)
@@ -315,7 +393,7 @@ func c44Verdict(st storer.EncodedObjectStorer, a, b *c44Tree) (kind, what, obs s
 				what = fmt.Sprintf("rename detection (%s) loses or invents changes: reported=%q, expanded=%q, without renames=%q", ro.name, raw, exp, model)
 				return
 			}
-			renObs += fmt.Sprintf(" %s:%d", ro.name, nren)
+			renObs += fmt.Sprintf(" %d:%d", ri, nren)
 		}
 	})
 	if p != "" {
@@ -390,85 +468,96 @@ func c44RenameClass(expanded, model []string) string {
 }
 
 // c44Reductions lists the indices of trees one reduction step simpler than t:
-// an entry removed, a directory replaced by its first child kind, a kind
-// lowered, a name lowered to an unused earlier name.
+// at any nesting level an entry removed, a directory replaced by the first leaf
+// kind, a kind lowered, a name lowered to an earlier name unused in its directory.
 func (sp *c44Space) reductions(t *c44Tree, rootNames, subNames []string) []int {
 	var out []int
+	var canon func(es []c44Ent) []c44Ent
+	canon = func(es []c44Ent) []c44Ent {
+		o := make([]c44Ent, len(es))
+		for i, e := range es {
+			o[i] = e
+			if e.leaf < 0 {
+				o[i].sub = canon(e.sub)
+			}
+		}
+		sort.SliceStable(o, func(i, j int) bool { return idxOf(rootNames, o[i].name) < idxOf(rootNames, o[j].name) })
+		return o
+	}
 	add := func(ents []c44Ent) {
-		sort.Slice(ents, func(i, j int) bool { return idxOf(rootNames, ents[i].name) < idxOf(rootNames, ents[j].name) })
-		if i, ok := sp.byKey[c44Key(ents, sp.kinds)]; ok {
+		if i, ok := sp.byKey[c44Key(canon(ents), sp.kinds)]; ok {
 			out = append(out, i)
 		}
 	}
-	clone := func() []c44Ent {
-		c := make([]c44Ent, len(t.ents))
-		for i, e := range t.ents {
-			c[i] = e
-			c[i].sub = append([]c44Ent{}, e.sub...)
-			if e.leaf < 0 && c[i].sub == nil {
-				c[i].sub = []c44Ent{}
-			}
+	with := func(es []c44Ent, i int, e *c44Ent) []c44Ent { // copy with entry i replaced (nil = removed)
+		o := append([]c44Ent{}, es[:i]...)
+		if e != nil {
+			o = append(o, *e)
 		}
-		return c
+		return append(o, es[i+1:]...)
 	}
-	for i := range t.ents {
-		c := clone()
-		add(append(c[:i:i], c[i+1:]...))
-	}
-	for i, e := range t.ents {
-		for j := range e.sub {
-			c := clone()
-			c[i].sub = append(c[i].sub[:j:j], c[i].sub[j+1:]...)
-			add(c)
-		}
-		if e.leaf < 0 {
-			c := clone()
-			c[i].leaf, c[i].sub = 0, nil
-			add(c)
-		}
-	}
-	for i, e := range t.ents {
-		for k := 0; k < e.leaf; k++ {
-			c := clone()
-			c[i].leaf = k
-			add(c)
-		}
-		for j, s := range e.sub {
-			for k := 0; k < s.leaf; k++ {
-				c := clone()
-				c[i].sub[j].leaf = k
-				add(c)
-			}
-		}
-	}
-	for i, e := range t.ents {
-		used := map[string]bool{}
-		for _, x := range t.ents {
-			used[x.name] = true
-		}
-		for k := 0; k < idxOf(rootNames, e.name); k++ {
-			if !used[rootNames[k]] {
-				c := clone()
-				c[i].name = rootNames[k]
-				add(c)
-			}
-		}
-		for j, s := range e.sub {
-			usedS := map[string]bool{}
-			for _, x := range e.sub {
-				usedS[x.name] = true
-			}
-			for k := 0; k < idxOf(subNames, s.name); k++ {
-				if !usedS[subNames[k]] {
-					c := clone()
-					c[i].sub[j].name = subNames[k]
-					sort.Slice(c[i].sub, func(x, y int) bool { return idxOf(subNames, c[i].sub[x].name) < idxOf(subNames, c[i].sub[y].name) })
-					add(c)
+	// pass 0 removals and directory collapses, pass 1 kinds, pass 2 names
+	for pass := 0; pass < 3; pass++ {
+		var walk func(es []c44Ent, rebuild func([]c44Ent) []c44Ent)
+		walk = func(es []c44Ent, rebuild func([]c44Ent) []c44Ent) {
+			for i, e := range es {
+				switch pass {
+				case 0:
+					add(rebuild(with(es, i, nil)))
+					if e.leaf < 0 {
+						add(rebuild(with(es, i, &c44Ent{name: e.name, leaf: 0})))
+					}
+				case 1:
+					for k := 0; k < e.leaf; k++ {
+						add(rebuild(with(es, i, &c44Ent{name: e.name, leaf: k})))
+					}
+				case 2:
+					for k := 0; k < idxOf(rootNames, e.name); k++ {
+						used := false
+						for _, x := range es {
+							if x.name == rootNames[k] {
+								used = true
+							}
+						}
+						if !used {
+							ne := e
+							ne.name = rootNames[k]
+							add(rebuild(with(es, i, &ne)))
+						}
+					}
+				}
+				if e.leaf < 0 {
+					i, e := i, e
+					walk(e.sub, func(sub []c44Ent) []c44Ent {
+						return rebuild(with(es, i, &c44Ent{name: e.name, leaf: -1, sub: sub}))
+					})
 				}
 			}
 		}
+		walk(t.ents, func(x []c44Ent) []c44Ent { return x })
 	}
 	return out
+}
+
+// c44Big: about 9 KiB of text crossing the 4096-byte read buffer of the
+// similarity index twice: lines longer than 64 bytes, CRLF line ends, and runs
+// of CR placed across both buffer boundaries. variant 1 = variant 0 + one line.
+func c44Big(variant int) string {
+	var b strings.Builder
+	for i := 0; b.Len() < 4000; i++ {
+		fmt.Fprintf(&b, "line %03d %s\r\n", i, strings.Repeat("x", i%90))
+	}
+	b.WriteString(strings.Repeat("\r", 200)) // covers offset 4095/4096
+	b.WriteString("\n")
+	for i := 0; b.Len() < 8100; i++ {
+		fmt.Fprintf(&b, "second part %03d %s\n", i, strings.Repeat("y", (i*7)%80))
+	}
+	b.WriteString(strings.Repeat("\r", 200)) // covers offset 8191/8192
+	b.WriteString("\nlast line\n")
+	if variant == 1 {
+		b.WriteString("one more line\n")
+	}
+	return b.String()
 }
 
 // renamed returns the index of t with root (level 0) or sub-directory (level 1)
@@ -528,32 +617,52 @@ func runC44(c *fw.Ctx) {
 		{tag: "x1", mode: "100755", typ: "blob", data: c1},
 		{tag: "l1", mode: "120000", typ: "blob", data: c1},
 		{tag: "s1", mode: "160000", typ: "commit", id: "1111111111111111111111111111111111111111"},
+		// the deprecated group-writable mode: git (canon_mode) and go-git's
+		// treeNoder.Hash both read it as 100644
+		{tag: "d1", mode: "100664", typ: "blob", data: c1},
+		// two similar blobs larger than the 4 KiB read buffer of the
+		// similarity index, with lines longer than its 64-byte block, CRLF
+		// line ends and runs of CR across the buffer boundaries
+		{tag: "g1", mode: "100644", typ: "blob", data: c44Big(0)},
+		{tag: "g2", mode: "100644", typ: "blob", data: c44Big(1)},
 	}
+	// global name order (keys list entries in this order)
 	rootNames := []string{"a", "a-b", "a.b", "a0", "ab"}
 	subNames := []string{"a", "a.b", "ab"}
 	// Sub-spaces; all ordered pairs WITHIN each sub-space are checked.
+	// depth 0: the two-level enumerator (rn = root names, sn = names inside a
+	// directory, <= 3 root entries); depth >= 2: the recursive enumerator over
+	// rn at every level (directories nested up to `depth` levels).
 	type subspace struct {
 		name   string
 		kinds  []int
 		rn, sn []string
 		w      int
+		depth  int
 	}
 	all := []int{0, 1, 2, 3, 4, 5}
 	var spaces []subspace
 	if c.Thorough() {
 		spaces = []subspace{
-			{"W2-full", all, rootNames, subNames, 2},
-			{"W3-reduced", []int{0, 1, 3, 4, 5}, []string{"a", "a-b", "a.b", "a0"}, []string{"a", "a.b"}, 3},
+			{"W2-full", all, rootNames, subNames, 2, 0},
+			{"W3-reduced", []int{0, 1, 3, 4, 5}, []string{"a", "a-b", "a.b", "a0"}, []string{"a", "a.b"}, 3, 0},
+			{"deep-W4", []int{0, 1}, []string{"a", "a.b"}, nil, 4, 3},
+			{"deep-W3-3names", []int{0}, []string{"a", "a-b", "a0"}, nil, 3, 3},
+			{"W2-other-kinds", []int{0, 6, 7, 8}, []string{"a", "a.b", "a0"}, []string{"a", "a.b"}, 2, 0},
 		}
 	} else {
 		spaces = []subspace{
-			{"W2", all, []string{"a", "a-b", "a.b", "a0"}, []string{"a", "a.b"}, 2},
-			{"W3-reduced", []int{0, 1, 3}, []string{"a", "a.b", "a0"}, []string{"a", "ab"}, 3},
+			{"W2", all, []string{"a", "a-b", "a.b", "a0"}, []string{"a", "a.b"}, 2, 0},
+			{"W3-reduced", []int{0, 1, 3}, []string{"a", "a.b", "a0"}, []string{"a", "ab"}, 3, 0},
+			{"deep-W4-1kind", []int{0}, []string{"a", "a.b"}, nil, 4, 3},
+			{"deep-W3", []int{0, 1}, []string{"a", "a.b"}, nil, 3, 3},
+			{"W2-other-kinds", []int{0, 6, 7, 8}, []string{"a", "a.b"}, []string{"a"}, 2, 0},
 		}
 	}
-	c.Bound("max_depth", 2)
+	c.Bound("max_depth", 3)
 	c.Bound("max_root_entries", 3)
-	c.Bound("leaf_kinds", []string{"f1 regular c1", "f2 regular c2~c1", "fe regular empty", "x1 executable c1", "l1 symlink c1", "s1 gitlink"})
+	c.Bound("leaf_kinds", []string{"f1 regular c1", "f2 regular c2~c1", "fe regular empty", "x1 executable c1", "l1 symlink c1", "s1 gitlink", "d1 c1 with the deprecated mode 100664", "g1 regular 9 KiB (long lines, CRLF, CR runs)", "g2 regular g1 + one line"})
+	c.Bound("rename_option_sets", len(c44RenameOpts))
 	c.SetRule("all ordered pairs of trees within each sub-space (each closed under entry deletion; W = max total entries over 2 levels); go-git DiffTree multiset vs flattened-map model that is itself replayed against `git diff-tree -r --no-renames --stdin` on every pair; rename detection (default and exact-only) must expand to the same multiset; a case is non-trivial when the trees differ; distinct = multisets of (status, old kind, new kind, depth) plus rename counts")
 	c.Assume("git 2.39.5 diff-tree is the reference for the no-rename diff; WHICH delete is paired with which insert by rename detection is heuristic and not compared with git -M; worktree/index noders are exercised by the status properties (C25/C27), not here")
 
@@ -564,10 +673,17 @@ func runC44(c *fw.Ctx) {
 		}
 	}
 	sp := &c44Space{kinds: kinds, byKey: map[string]int{}}
-	addSpace := func(ks []c44Kind, rn, sn []string, w int) []int {
+	addSpace := func(ks []c44Kind, rn, sn []string, w, depth int) []int {
 		var members []int
-		for _, ents := range c44Enumerate(ks, rn, sn, w, 3) {
-			conv := func(es []c44Ent) []c44Ent { // re-index leaf kinds into the full kind list
+		var lists [][]c44Ent
+		if depth == 0 {
+			lists = c44Enumerate(ks, rn, sn, w, 3)
+		} else {
+			lists = c44EnumerateDeep(len(ks), rn, w, depth)
+		}
+		for _, ents := range lists {
+			var conv func(es []c44Ent) []c44Ent // re-index leaf kinds into the full kind list
+			conv = func(es []c44Ent) []c44Ent {
 				o := make([]c44Ent, len(es))
 				for i, e := range es {
 					o[i] = e
@@ -577,16 +693,13 @@ func runC44(c *fw.Ctx) {
 								o[i].leaf = k
 							}
 						}
+					} else {
+						o[i].sub = conv(e.sub)
 					}
 				}
 				return o
 			}
 			full := conv(ents)
-			for i := range full {
-				if full[i].leaf < 0 {
-					full[i].sub = conv(full[i].sub)
-				}
-			}
 			k := c44Key(full, kinds)
 			idx, dup := sp.byKey[k]
 			if !dup {
@@ -611,7 +724,7 @@ func runC44(c *fw.Ctx) {
 			ks = append(ks, kinds[k])
 			tags = append(tags, kinds[k].tag)
 		}
-		m := addSpace(ks, s.rn, s.sn, s.w)
+		m := addSpace(ks, s.rn, s.sn, s.w, s.depth)
 		members = append(members, m)
 		inSpace[si] = map[int]bool{}
 		for _, x := range m {
@@ -619,41 +732,73 @@ func runC44(c *fw.Ctx) {
 			rows = append(rows, row{si, x})
 		}
 		pairs += len(m) * len(m)
-		bdesc = append(bdesc, map[string]any{"name": s.name, "max_total_entries": s.w, "kinds": tags, "root_names": s.rn, "sub_names": s.sn, "trees": len(m), "ordered_pairs": len(m) * len(m)})
+		bdesc = append(bdesc, map[string]any{"name": s.name, "max_total_entries": s.w, "kinds": tags, "root_names": s.rn, "sub_names": s.sn, "nesting_levels": map[bool]int{true: 2, false: s.depth}[s.depth == 0], "trees": len(m), "ordered_pairs": len(m) * len(m)})
 	}
 	c.Bound("sub_spaces", bdesc)
-	// build: sub-directories first, then roots
-	subIdx := map[string]int{}
-	var subRecs [][]string
+	// build: directories by height (leaf-only directories first), then roots
+	type dirNode struct {
+		sub    []c44Ent
+		height int
+	}
+	dirs := map[string]*dirNode{}
+	var collect func(es []c44Ent) int
+	collect = func(es []c44Ent) int {
+		h := 1
+		for _, e := range es {
+			if e.leaf < 0 {
+				if ch := collect(e.sub) + 1; ch > h {
+					h = ch
+				}
+			}
+		}
+		k := c44Key(es, kinds)
+		if _, ok := dirs[k]; !ok {
+			dirs[k] = &dirNode{es, h}
+		}
+		return h
+	}
+	maxH := 0
 	for _, t := range sp.trees {
 		for _, e := range t.ents {
 			if e.leaf < 0 {
-				k := c44Key(e.sub, kinds)
-				if _, ok := subIdx[k]; !ok {
-					subIdx[k] = len(subRecs)
-					var rec []string
-					for _, s := range e.sub {
-						kd := kinds[s.leaf]
-						rec = append(rec, fmt.Sprintf("%s %s %s\t%s", kd.mode, kd.typ, kd.id, s.name))
-					}
-					subRecs = append(subRecs, rec)
+				if h := collect(e.sub); h > maxH {
+					maxH = h
 				}
 			}
 		}
 	}
-	subIDs := fMktreeBatch(g, subRecs)
-	var rootRecs [][]string
-	for _, t := range sp.trees {
+	dirID := map[string]string{}
+	record := func(es []c44Ent) []string {
 		var rec []string
-		for _, e := range t.ents {
+		for _, e := range es {
 			if e.leaf >= 0 {
 				kd := kinds[e.leaf]
 				rec = append(rec, fmt.Sprintf("%s %s %s\t%s", kd.mode, kd.typ, kd.id, e.name))
 			} else {
-				rec = append(rec, fmt.Sprintf("040000 tree %s\t%s", subIDs[subIdx[c44Key(e.sub, kinds)]], e.name))
+				rec = append(rec, fmt.Sprintf("040000 tree %s\t%s", dirID[c44Key(e.sub, kinds)], e.name))
 			}
 		}
-		rootRecs = append(rootRecs, rec)
+		return rec
+	}
+	for h := 1; h <= maxH; h++ {
+		var keys []string
+		for k, d := range dirs {
+			if d.height == h {
+				keys = append(keys, k)
+			}
+		}
+		sort.Strings(keys)
+		var recs [][]string
+		for _, k := range keys {
+			recs = append(recs, record(dirs[k].sub))
+		}
+		for i, id := range fMktreeBatch(g, recs) {
+			dirID[keys[i]] = id
+		}
+	}
+	var rootRecs [][]string
+	for _, t := range sp.trees {
+		rootRecs = append(rootRecs, record(t.ents))
 	}
 	rootIDs := fMktreeBatch(g, rootRecs)
 	seen := map[string]string{}
@@ -709,6 +854,62 @@ func runC44(c *fw.Ctx) {
 		}
 		return i, j
 	}
+
+	// A nil *Tree stands for "no tree" (object.DiffTree(nil, t) is how the
+	// patch of a root commit is computed): it must diff like the empty tree.
+	emptyIdx, haveEmpty := sp.byKey[""]
+	if !haveEmpty {
+		fw.Abort("the empty tree is not in the space")
+	}
+	c.ParDo(len(sp.trees), 0, func(i int) {
+		t := sp.trees[i]
+		repo := pool.get()
+		defer pool.put(repo)
+		for dir := 0; dir < 2; dir++ {
+			a, b := sp.trees[emptyIdx], t
+			if dir == 1 {
+				a, b = t, sp.trees[emptyIdx]
+			}
+			model := c44ModelDiff(a, b) // the (empty tree, t) pairs are replayed against git below
+			var got []string
+			errS := ""
+			p := fRecover(func() {
+				tt, err := object.GetTree(repo, plumbing.NewHash(t.id))
+				if err != nil {
+					errS = "GetTree: " + err.Error()
+					return
+				}
+				var chs object.Changes
+				if dir == 0 {
+					chs, err = object.DiffTree(nil, tt)
+				} else {
+					chs, err = tt.Diff(nil)
+				}
+				if err != nil {
+					errS = "DiffTree with a nil tree: " + err.Error()
+					return
+				}
+				got, _, err = c44Lines(chs, false)
+				if err != nil {
+					errS = "Action: " + err.Error()
+				}
+			})
+			c.Eval()
+			side := []string{"DiffTree(nil, t)", "t.Diff(nil)"}[dir]
+			switch {
+			case p != "":
+				c.Fail("nil tree: panic in "+side, "panic: "+p+" (t = {"+t.key+"})", map[string]any{"tree": t.key, "tree_id": t.id})
+			case errS != "":
+				c.Fail("nil tree: error in "+side, errS+" (t = {"+t.key+"})", map[string]any{"tree": t.key, "tree_id": t.id})
+			case !fEqualStrings(got, model):
+				c.Fail("nil tree: "+side+" differs from the diff against the empty tree", fmt.Sprintf("t = {%s}: go-git=%q, git diff-tree against the empty tree=%q", t.key, got, model), map[string]any{"tree": t.key, "tree_id": t.id})
+			default:
+				if len(model) > 0 {
+					c.Class(fmt.Sprintf("nil-tree|%d|%d", dir, len(model)))
+				}
+			}
+		}
+	})
 
 	var seenClass sync.Map
 	c.ParDo(len(rows), 0, func(ri int) {
